@@ -32,6 +32,8 @@ func init() { props.Register("C18", props.Monitor{Level: "exploration", Run: Run
 type monitor struct {
 	r   *ev.Run
 	rng *gen.Rand
+
+	cmdLargest int // largest bundle that went through the command-level layer
 }
 
 // selection is one way of asking for an export, as the acra-keys export command would (ids + mode).
@@ -102,10 +104,11 @@ func selectedIDs(ids []keystore.ExportID) string {
 
 // Run is the C18 monitor.
 func Run(r *ev.Run) {
-	r.Rule = "cases = keystore format {v1 one directory, v1 separate public directory, v2} × source history {fixed: single keys, with poison symmetric key, rotated, rotated poison, rotated+destroyed, odd client ids (a key-kind suffix of the v1 file names inside the id: billing_storage_hmac_node, x_storage_sym_y, next to the plain client billing), odd id with rotated keys; + seeded ones: 1–3 clients (a third of them with one more client with an odd id), 1–3 generations per key kind, destroyed current/rotated keys, poison/log keys} × export selection {--all, --all --private_keys, explicit private ids, explicit public ids} (through KeyBackuper.Export like acra-keys export) × target {empty, holding another client}; plus v2 ExportKeyRings/ImportKeyRings with abort/skip/overwrite delegates on a target holding the same ring; plus per bundle: bit flips of Data (quick: head, tail and a seeded sample; thorough: every bit of bundles ≤ 8 KiB), every bit of the access keys, truncations; plus secret scan of every bundle; plus v1→v2 migration (MigrateV1toV2) of every v1 history. A case is non-trivial when the export produced a bundle and the import (or its rejection) was compared; distinct = (format, history class, selection, target kind, oracle) tuples"
+	r.Rule = "cases = keystore format {v1 one directory, v1 separate public directory, v2} × source history {fixed: single keys, with poison symmetric key, rotated, rotated poison, rotated+destroyed, odd client ids (a key-kind suffix of the v1 file names inside the id: billing_storage_hmac_node, x_storage_sym_y, next to the plain client billing), odd id with rotated keys; + seeded ones: 1–3 clients (a third of them with one more client with an odd id), 1–3 generations per key kind, destroyed current/rotated keys, poison/log keys} × export selection {--all, --all --private_keys, explicit private ids, explicit public ids} (through KeyBackuper.Export like acra-keys export) × target {empty, holding another client}; plus v2 ExportKeyRings/ImportKeyRings with abort/skip/overwrite delegates on a target holding the same ring; plus per bundle: bit flips of Data (quick: head, tail and a seeded sample; thorough: every bit of bundles ≤ 8 KiB), every bit of the access keys, truncations; plus secret scan of every bundle; plus v1→v2 migration (MigrateV1toV2) of every v1 history; plus the command-level path (quick: 8 of the histories + one large keystore, thorough: all): keys.ExportKeysCommand writes the bundle file and the access-keys file, keys.ImportKeysCommand reads them into an empty keystore of the same format {v1, v1 two directories, v2}, with the two paths REUSED across a chain of exports of different size (all+private, public ids, private ids twice, all, public ids, all+private; then the same paths shared by a v2 and a v1 keystore, which makes the access-keys file shrink and grow) and a fresh pair of paths as control — per step: the files hold the bytes the Exporter returned (no remainder of what they held before), the import succeeds and source and target compare as in the library-level cases. A case is non-trivial when the export produced a bundle and the import (or its rejection) was compared; distinct = (format, history class, selection, target kind, oracle) tuples (command level: the measured history of the two files is the target kind)"
 	r.Assumptions = []string{
 		"crypto library replaced by the pure-Go gothemis stand-in (Secure Cell Seal authenticates every bit of its output; HMAC-SHA256 signatures of v2 containers are Acra's own code)",
-		"filesystem / in-memory back ends only (no Redis); CLI file handling (key_bundle_file / key_bundle_secret) not driven, the Exporter/Importer objects the commands build are",
+		"filesystem / in-memory back ends only (no Redis); the commands are driven from keys.ExportKeysCommand / keys.ImportKeysCommand on (file handling of key_bundle_file / key_bundle_secret included) with the Exporter/Importer objects Execute() builds; flag parsing, configuration files and opening the keystore from the environment master key are not",
+		"command level: log.Fatal of a command function = the command failed (exit status 1); file modes of the two output files are recorded, not demanded (C18 does not state them)",
 		"'selected keys' of a selection are what the command-line flags promise: --all = every key (v1: files; v2: rings, public data unless --private_keys), ids = the named current keys (v1) / key rings (v2)",
 		"level: exploration — histories/selections are a seeded sample; only the bit-flip sweep of the thorough tier is exhaustive (per bundle ≤ 8 KiB)",
 	}
@@ -129,6 +132,10 @@ func Run(r *ev.Run) {
 		}
 		m.cmdScenario(h, r.Thorough() || h.name == "single-keys" || h.name == "rotated-clients" || h.name == "odd-ids")
 	}
+	// one keystore large enough for bundles of several pages (command-level layer only)
+	m.cmdScenario(historySpec{name: "large-keystore", clients: []clientSpec{{id: idA, pair: 3, sym: 3, hmac: 2}, {id: idB, pair: 3, sym: 3, hmac: 2}, {id: idC, pair: 3, sym: 3, hmac: 2},
+		{id: idG, pair: 3, sym: 3, hmac: 2}, {id: idD, pair: 2, sym: 3, hmac: 2}, {id: idE, pair: 3, sym: 2, hmac: 2}},
+		poisonPair: 2, poisonSym: 2, logKey: 2}, r.Thorough())
 	m.cmdGuards()
 	r.Extra("command_level_layer_wall_s", time.Since(cmdStart).Seconds()) // information only
 	r.RequireAtLeast("exports_ok", 20)
